@@ -168,6 +168,18 @@ impl CoreGrammar {
             tpl: Tpl::List(vec![def_v(0), def_p(&g, 1), Tpl::Hole(2)]),
             tag: "internal-var+proc",
         });
+        // B6: (define a e1) e   -- an internal definition named like a parameter in scope (role name
+        // a: only the shadowing discipline has it); e1 must not mention a
+        if self.shadow && self.envs[env as usize].iter().any(|(n, t)| n == "a" && *t == INT) {
+            let a = "a".to_string();
+            let env_no_a = self.without(env, &[&a]);
+            out.push(Prod {
+                cost: 1,
+                kids: vec![(INT, env_no_a), (INT, env)],
+                tpl: Tpl::List(vec![Tpl::List(vec![tl("define"), tl("a"), Tpl::Hole(0)]), Tpl::Hole(1)]),
+                tag: "internal-define-of-parameter-name",
+            });
+        }
         // B5: (define (g x) e1) (define (h x) e2) e   -- g's body may call h (forward reference)
         if !self.scope_only {
             let env_no_gh = self.without(env, &[&g, &h]);
@@ -199,6 +211,8 @@ impl CoreGrammar {
         let dv = |h: usize| Tpl::List(vec![tl("define"), tl(&v), Tpl::Hole(h)]);
         // (define v e) probe
         out.push(Prod { cost: 1, kids: vec![(INT, env), (INT, env_v)], tpl: Tpl::List(vec![dv(0), Tpl::Hole(1)]), tag: "define-var" });
+        // (define v e1) (define v e2) probe      -- redefinition in the same frame; e2 sees the old v
+        out.push(Prod { cost: 2, kids: vec![(INT, env), (INT, env_v), (INT, env_v)], tpl: Tpl::List(vec![dv(0), dv(1), Tpl::Hole(2)]), tag: "redefine-var" });
         for (k, penv, pvenv) in [(1usize, env_g, env_vg), (0usize, env_g0, env_vg0)] {
             // (define (g a) . body) probe       and      (define v e) (define (g a) . body) probe
             let l = self.lambda(env, k, false);
@@ -217,6 +231,8 @@ impl CoreGrammar {
             let dg = |l: &Prod, h: usize| Tpl::Dotted(vec![tl("define"), sig(l)], Box::new(Tpl::Hole(h)));
             out.push(Prod { cost: 1, kids: vec![l.kids[0], (INT, penv)], tpl: Tpl::List(vec![dg(&l, 0), Tpl::Hole(1)]), tag: "define-sugar" });
             out.push(Prod { cost: 2, kids: vec![(INT, env), lv.kids[0], (INT, pvenv)], tpl: Tpl::List(vec![dv(0), dg(&lv, 1), Tpl::Hole(2)]), tag: "two-defs" });
+            // (define (g a) . body1) (define (g a) . body2) probe      -- the second definition replaces the first
+            out.push(Prod { cost: 2, kids: vec![l.kids[0], l.kids[0], (INT, penv)], tpl: Tpl::List(vec![dg(&l, 0), dg(&l, 1), Tpl::Hole(2)]), tag: "redefine-proc" });
         }
         out
     }
@@ -280,6 +296,13 @@ impl CoreGrammar {
                     tag: "define-var",
                 });
             }
+        }
+        {
+            // (define tu e1) (define tu e2) probe      -- redefinition; e2 sees the old value
+            let tu = "tu".to_string();
+            let penv = self.extend(env, &[(tu.clone(), INT)]);
+            let d = |h: usize| Tpl::List(vec![tl("define"), tl(&tu), Tpl::Hole(h)]);
+            out.push(Prod { cost: 2, kids: vec![(INT, env), (INT, penv), (INT, penv)], tpl: Tpl::List(vec![d(0), d(1), Tpl::Hole(2)]), tag: "redefine-var" });
         }
         // two definitions + probe: tf then tg, tg's body sees tf; and forward: tf's body sees tg
         for forward in [false, true] {
